@@ -381,6 +381,15 @@ def crash_check(prop, tier, seed, family, post_family, oracles, interesting, n_h
                 cc["post_ops"] = post_ops
                 cases.append(cc)
                 windows[cls] += 1
+            # torn-write variants: a crash while a log/catalog write is being made durable keeps every
+            # namespace operation and a drawn, possibly torn, prefix of the unsynced data
+            if cls in ("fsync:wal", "write:wal", "fsync:wal-rewrite", "fsync:rule-catalog", "fsync:schema-catalog") and (tier != "quick" or rng.chance(1, 2)):
+                for _ in range(2):
+                    cc = copy.deepcopy(c)
+                    cc["crash"] = {"at": ordn, "inflight_write": True, "image": {"l1": {"ns_keep": 1000, "data": {"random": rng.next()}}}, "second": None}
+                    cc["post_ops"] = post_ops
+                    cases.append(cc)
+                    windows["torn:" + cls] += 1
     t = time.time()
     outs = execute(cases, timeout_s=300)
     log(f"[{prop}] {len(cases)} crash runs in {time.time() - t:.1f}s")
